@@ -881,7 +881,8 @@ func main() {
 					family("T0<=2,T1<=1,dev2", programs(2, 1, all4, true), vsched.Config{MaxPreempt: 2, MaxFree: 2, MaxTotal: 2, MaxDev: 0, MaxSteps: 3000}),
 					family("T0<=3,dev2", programs(3, 0, two, false), vsched.Config{MaxPreempt: 2, MaxFree: 2, MaxTotal: 2, MaxDev: 0, MaxSteps: 3000, MaxExecs: 30000}),
 					family("T0<=2,T1<=2,dev1", programs(2, 2, two, false), vsched.Config{MaxPreempt: 1, MaxFree: 1, MaxTotal: 1, MaxDev: 0, MaxSteps: 3000}),
-					directFamily("direct-shutdown<=3,dev2", dprogs(3), vsched.Config{MaxPreempt: 2, MaxFree: 2, MaxTotal: 2, MaxDev: 0, MaxSteps: 3000}),
+					directFamily("direct-shutdown<=4,dev2", dprogs(4), vsched.Config{MaxPreempt: 2, MaxFree: 2, MaxTotal: 2, MaxDev: 0, MaxSteps: 3000}),
+					directFamily("direct-shutdown<=3,dev3", dprogs(3), vsched.Config{MaxPreempt: 3, MaxFree: 3, MaxTotal: 3, MaxDev: 0, MaxSteps: 3000}),
 				}
 			}
 			return []vlib.Family{
